@@ -7,7 +7,7 @@ namespace sim {
 
 static const char *OPN[] = {"NEW", "LOAD", "DECL_POINT", "DECL_ANALOG", "SET_RATE", "PARAM", "PARAM_SETBAD", "LOCK_GROUP",
                             "UNLOCK_GROUP", "FRAME_BUILD", "FRAME_SUBMIT", "FRAME_MUTATE", "COL_POINT", "COL_ANALOG",
-                            "COL_MUTATE", "SAVE", "RELOAD", "PRINT", "FILL_GAPS", "BULK_FRAMES", "FRAME_DUP", "PARAM_EDIT"};
+                            "COL_MUTATE", "SAVE", "RELOAD", "PRINT", "FILL_GAPS", "BULK_FRAMES", "FRAME_DUP", "PARAM_EDIT", "LOOKUP"};
 
 const char *op_name(int op) { return (op >= 0 && op < OP_NOPS) ? OPN[op] : "?"; }
 int op_from_name(const std::string &s) {
@@ -35,7 +35,7 @@ std::string step_to_text(const Step &s) {
     const FaultSpec &f = s.fault;
     if (f.any_hard() || f.any_benign() || f.benign_seed)
         o << " f=[" << f.open_errno << "," << f.byte_budget << "," << f.budget_errno << "," << f.fail_write_call << ","
-          << f.fail_errno << "," << f.benign_seed << "," << f.short_write_pct << "," << f.eintr_pct << "," << f.short_read_pct << "," << (f.dest_is_dir ? 1 : 0) << "]";
+          << f.fail_errno << "," << f.benign_seed << "," << f.short_write_pct << "," << f.eintr_pct << "," << f.short_read_pct << "," << (f.dest_is_dir ? 1 : 0) << "," << f.fail_seek_call << "]";
     return o.str();
 }
 
@@ -159,7 +159,8 @@ bool plan_from_text(const std::string &text, Plan &p, std::string *err) {
                     else if (!c.num(v[k])) return fail("fault");
                     c.lit(",");
                 }
-                { int64_t dd = 0; if (c.peek() != ']' && c.num(dd)) s.fault.dest_is_dir = dd != 0; }
+                { int64_t dd = 0; if (c.peek() != ']' && c.num(dd)) s.fault.dest_is_dir = dd != 0; c.lit(","); }
+                { int64_t dd = -1; if (c.peek() != ']' && c.num(dd)) s.fault.fail_seek_call = dd; }
                 c.lit("]");
                 s.fault.open_errno = static_cast<int>(v[0]); s.fault.byte_budget = v[1]; s.fault.budget_errno = static_cast<int>(v[2]);
                 s.fault.fail_write_call = v[3]; s.fault.fail_errno = static_cast<int>(v[4]); s.fault.benign_seed = bseed;
